@@ -15,7 +15,8 @@ R2.4 self-healing views.  In every FSTView method a value read of self._start / 
      (directly or through a method / property that always calls it).
 R2.5 _offset flushes what it visits: the per-node `f._cache.clear()` dominates both "ends before the offset point" breaks, and
      the zero-delta early return is preceded by a full _touchall().
-R2.6 a text splice that does not offset (`_put_src` with `tail` left at its default) on the live tree is followed on every normal
+R2.6 a text splice that does not offset (`_put_src` with `tail` left at its default), or that rewrites to the end of a line (trailing
+     trivia, which no position-driven flush reaches), on the live tree is followed on every normal
      path by a flush of the receiver's ancestors (`_touchall(True, ...)` or a helper that clears every ancestor unconditionally).
 R2.7 a direct store into the live line list of the tree of `self` (outside _put_src and the indent rewriters, which flush through
      _offset_lns) happens with the memo of `self` known empty or is followed by a flush on every normal path: pars() / bloc are
@@ -897,8 +898,14 @@ def check_unsynced_put(ctx, res):
     for fi in ctx.repo.all_funcs():
         if isinstance(fi.node, ast.Lambda):
             continue
+        def eol_splice(c):
+            # end column = the "to end of line" sentinel: the splice rewrites trailing trivia, which lies after the end of every node on the
+            # line; a position-driven flush stops at nodes that end before the splice, but the bloc of every enclosing block includes it
+            pa = pos_args(c)
+            return len(pa) >= 5 and isinstance(pa[4], ast.Constant) and isinstance(pa[4].value, int) and pa[4].value >= 0x7fffffff
+
         sites = [c for c in walk_no_nested(fi.node) if isinstance(c, ast.Call) and call_name(c) == '_put_src' and isinstance(c.func, ast.Attribute)
-                 and norm(c.func.value) == 'self' and not put_src_offsets(c)]
+                 and norm(c.func.value) == 'self' and (not put_src_offsets(c) or eol_splice(c))]
         if not sites or fi.name == '_put_src':
             continue
         cfg = CFG(fi.node)
